@@ -107,9 +107,15 @@ class Prior(HoloPyObject):
         return self * -1
 
     def __pow__(self, value):
+        if not isinstance(value, (Number, Prior, np.ndarray)):
+            raise TypeError("Cannot raise prior to the power of objects of "
+                            "type {}".format(type(value)))
         return TransformedPrior(operator.pow, [self, value])
 
     def __rpow__(self, value):
+        if not isinstance(value, (Number, Prior, np.ndarray)):
+            raise TypeError("Cannot raise objects of type {} to the power "
+                            "of a prior".format(type(value)))
         return TransformedPrior(operator.pow, [value, self])
 
     def __array_ufunc__(self, ufunc, method, *args, name=None, **kwargs):
